@@ -159,7 +159,8 @@ def gen_history(rng, tier):
     app_names = [f'app{i}' for i in range(n_apps)]
     for i in range(n_apps):
         proto = rng.choice(protos)
-        style = 'gen' if (pure or rng.random() < 0.6) else 'plain'
+        # 'explicit' = a plain base class whose message statements all repeat app_name= (the namespace is spelled out)
+        style = rng.choice(['gen', 'gen', 'gen', 'explicit']) if pure else rng.choice(['gen', 'gen', 'explicit', 'plain', 'plain'])
         app = app_names[i]
         if i > 0 and rng.random() < 0.12:
             app = bases[rng.randrange(len(bases))]['app']          # a second base class for the same application name
@@ -200,6 +201,10 @@ def gen_history(rng, tier):
                 appkw = rng.choice(app_names + ['ITCH', 'elsewhere'])
             elif r < 0.26:
                 ind = rng.choice([256, 300, 1000])
+        if base_var.startswith('Base') and bases[int(base_var[4:])]['style'] == 'explicit' and appkw is None:
+            appkw = bases[int(base_var[4:])]['app']
+            if rng.random() < 0.4:
+                base_var = f'{proto}.Message'       # same namespace, spelled on a statement under the protocol-level class
         name = f'M{cid}'
         if name_pool and rng.random() < 0.08:
             name = rng.choice(name_pool)                            # two classes with the same __name__
@@ -233,7 +238,8 @@ def app_codes(h):
 def base_info(h):
     info = {f'{p}.Message': {'proto': p, 'app': PROTO_APP[p], 'style': 'proto'} for p in PROTO_APP}
     for b in h['bases']:
-        info[b['var']] = {'proto': b['proto'], 'app': b['app'], 'style': b['style']}
+        info[b['var']] = {'proto': b['proto'], 'app': b['app'], 'style': 'plain' if b['style'] == 'explicit' else b['style'],
+                          'explicit': b['style'] == 'explicit'}
     return info
 
 
@@ -315,16 +321,16 @@ def oracle(h, res):
     table = {}          # (app, proto) -> {id -> cid}
     for d, r in zip(h['decls'], res['defs']):
         b = info[d['base']]
-        ns = (b['app'], b['proto'])
+        ns = (d['appkw'] if (d['appkw'] is not None and b['style'] != 'gen') else b['app'], b['proto'])
         mid = same_id[b['proto']](d['ind'], d['dir'])
         reg = table.setdefault(ns, {})
         if mid in reg:
             if r == 'ok':
-                return (f'class {d["name"]} (a second, different class for id {mid} of application {b["app"]}) was accepted; '
+                return (f'class {d["name"]} (a second, different class for id {mid} of application {ns[0]}) was accepted; '
                         f'class {reg[mid]} already has that id')
         else:
             if r != 'ok':
-                return f'class {d["name"]}: first class for id {mid} of application {b["app"]} was rejected ({r})'
+                return f'class {d["name"]}: first class for id {mid} of application {ns[0]} was rejected ({r})'
             reg[mid] = d['cid']
     if not all(res['unchanged_after_error']):
         return 'a rejected class statement changed a registry'
@@ -387,7 +393,9 @@ def check_history(ctx, h, res, ans):
     ctx.count('history:' + ('in-quantifier' if h.get('pure') else 'mixed (agreement only)'))
     if h.get('pure'):
         bad = oracle(h, res)
-        if bad:
+        if bad and len(ctx.violations) >= 2:
+            ctx.violation(bad, {'kind': 'registry-history', 'history': h, 'program': program_text(h)})   # not shrunk
+        elif bad:
             def failing(c):
                 r = run_child(c)
                 return 'crash' not in r and oracle(c, r) is not None
